@@ -330,7 +330,11 @@ def correction(polarIMTrans, angles, radial, method):
             pkpos.append(profile.argmax())  # store index of peak position
 
         # radial correction factor relative to peak max in first angular slice
-        radcorr = radial[pkpos[0]] / radial[pkpos]
+        # (a maximum at the origin carries no information about the radial
+        # scale: no correction there, instead of 0/0)
+        pkr = radial[pkpos]
+        radcorr = np.where((pkr > 0) & (pkr[0] > 0),
+                           pkr[0] / np.where(pkr > 0, pkr, 1), 1.0)
 
     elif method == "lsq":
         # least-squares radially scale intensity profile matching previous slice
